@@ -244,7 +244,8 @@ def ccase(case, out):
 
 HEADER = ("From Coq Require Import List ZArith QArith String.\nFrom LNML Require Import Model.Morph Model.Section.\n"
           "Import ListNotations.\nOpen Scope string_scope.\nOpen Scope Z_scope.\n")
-COMPONENT = {1: "create_branches.segments", 2: "create_branches.groups", 3: "sect_vs_sect_tree"}
+COMPONENT = {1: "create_branches.segments", 2: "create_branches.groups", 3: "sect_vs_sect_tree",
+             4: "outside-the-hypotheses-of-C16_model_correct"}
 
 
 # ------------------------------------------------------------------------------------------ stored big inputs
